@@ -8,11 +8,12 @@ Everything is then judged in Coq: Model.Crossfit recomputes parts and call sched
 outputs (correspondence), and the executable specification (partition_ok_b / no_leak_b / double_sep_b /
 pick_ok_b, proved sound in Properties/C04.v) is evaluated on the implementation's own parts and call log."""
 import itertools
+import warnings
 
 import numpy as np
 import pandas as pd
 
-from common import coq_eval
+from common import coq_eval, NCPU
 
 PROP_FILE = 'theories/Properties/C04.v'
 MODEL_FILES = ['theories/Model/Crossfit.v']
@@ -184,7 +185,8 @@ def run_once(spec):
     L = SpyProba if spec['proba'] else Spy
     a_est, y_est = L('A'), (SpyProba('Y') if (spec['proba'] and spec['outcome'] == 'binary') else Spy('Y'))
     out = {'rows': rows, 'error': None}
-    with Wrappers():
+    with warnings.catch_warnings(), Wrappers():
+        warnings.simplefilter('ignore')
         rec = Recorder()
         REC[0] = rec
         try:
@@ -202,6 +204,25 @@ def run_once(spec):
     out['estimator_touched'] = hasattr(a_est, 'tok_') or hasattr(y_est, 'tok_')
     out['mutated'] = not snapshot.equals(df)
     return out
+
+
+def _work(spec):
+    """both fits of one case + the documented seed list (numpy draws a 5,000,000-permutation per call: ~0.5 s each,
+    hence the process pool)"""
+    from numpy.random import RandomState
+    r1 = run_once(spec)
+    r2 = run_once(spec)
+    seeds = [int(s) for s in RandomState(spec['rs']).choice(range(5000000), size=spec['nparts'], replace=False)]
+    return r1, r2, seeds
+
+
+def pmap(f, xs):
+    import multiprocessing as mp
+    xs = list(xs)
+    if len(xs) < 4:
+        return [f(x) for x in xs]
+    with mp.get_context('fork').Pool(max(2, min(8, NCPU))) as pool:
+        return pool.map(f, xs, chunksize=2)
 
 
 def enc_log(log):
@@ -282,9 +303,8 @@ def guard_specs(ctx):
 
 
 def check_specs(ctx, specs, fails):
-    from numpy.random import RandomState
     exprs, meta = [], []
-    for spec in specs:
+    for spec, work in zip(specs, pmap(_work, specs)):
         ctx.programs += 1
         ctx.count('class:' + spec['cls'])
         ctx.count('k=%d' % spec['k'])
@@ -303,8 +323,7 @@ def check_specs(ctx, specs, fails):
                 p.update(extra)
             fails.append((size, key, '%s [%s n=%d k=%d n_partitions=%d random_state=%d outcome=%s]'
                           % (what, spec['cls'], spec['n'], spec['k'], spec['nparts'], spec['rs'], spec['outcome']), p))
-        r1 = run_once(spec)
-        r2 = run_once(spec)
+        r1, r2, seeds = work
         if r1['error']:
             bad('%s.fit.raises' % spec['cls'], 'fit raised %s on valid input' % r1['error'])
             continue
@@ -320,7 +339,6 @@ def check_specs(ctx, specs, fails):
                 % (r1.get('estimates'), r2.get('estimates')))
         # ---- seeds are the documented function of random_state
         ctx.oracle_checks += 1
-        seeds = [int(s) for s in RandomState(spec['rs']).choice(range(5000000), size=spec['nparts'], replace=False)]
         if [p['seed'] for p in r1['parts']] != seeds:
             bad('%s.seeds' % spec['cls'], 'partition seeds %r are not RandomState(random_state).choice(range(5000000), n_partitions, replace=False) = %r'
                 % ([p['seed'] for p in r1['parts']], seeds))
@@ -352,7 +370,7 @@ def check_specs(ctx, specs, fails):
             continue
         payload = {'spec': spec, 'partition': pi, 'splits': part['splits']}
         where = '[%s n=%d k=%d partition %d/%d random_state=%d seed=%r]' % (spec['cls'], spec['n'], spec['k'], pi + 1, spec['nparts'], spec['rs'], part['seed'])
-        (status, m_sp, m_evs), picks_ok, (rows_nodup, part_ok, leak_ok, sep_ok) = r
+        status, m_sp, m_evs, picks_ok, (rows_nodup, part_ok, leak_ok, sep_ok) = r   # Coq prints left-nested pairs flat
         ctx.nontriv([spec['cls'], spec['n'], spec['k'], part['splits']])
         ctx.sample({'class': spec['cls'], 'n': len(part['rows']), 'k': spec['k'], 'part_sizes': [len(s) for s in part['splits']],
                     'calls': len(evs), 'model_status': status}, cap=4)
@@ -376,8 +394,9 @@ def check_specs(ctx, specs, fails):
         if m_list != [(t, j, list(ids)) for t, j, ids in evs]:
             d = next((i for i, (x, y) in enumerate(zip(m_list, evs)) if x != (y[0], y[1], list(y[2]))), min(len(m_list), len(evs)))
             fails.append((size, '%s.schedule' % spec['cls'],
-                          'learner-call log differs from the model schedule at call %d: impl %r model %r %s'
-                          % (d, evs[d][:2] if d < len(evs) else None, m_list[d][:2] if d < len(m_list) else None, where), payload))
+                          'learner-call log differs from the model schedule at call %d (tag, model index, sorted row ids): impl %r model %r %s'
+                          % (d, (evs[d][0], evs[d][1], sorted(evs[d][2])) if d < len(evs) else None,
+                             (m_list[d][0], m_list[d][1], sorted(m_list[d][2])) if d < len(m_list) else None, where), payload))
         # (b) the property itself, Coq-evaluated on the implementation's parts and log
         if not part_ok:
             fails.append((size, '%s.partition' % spec['cls'],
